@@ -203,7 +203,51 @@ fn mutate(r: &mut Rng, mut b: Vec<u8>) -> Vec<u8> {
     b
 }
 
+/// A valid SYN of the victim's own cluster whose digest lists two members with node ids so long that
+/// the victim's own digest, once it has learnt them, lands on a chosen size just below the datagram
+/// limit: it still fits a datagram (C09's condition) but leaves less room for a delta than the
+/// serializer wants.
+fn inflate(r: &mut Rng, w: &World, to: usize) -> Vec<u8> {
+    let Some(node) = w.nodes.get(to).and_then(|n| n.as_ref()) else { return structured(r, w, to) };
+    let mut own = Vec::new();
+    codec::put_u16(&mut own, node.view.len() as u16);
+    for id in node.view.keys() {
+        codec::put_id(&mut own, id);
+        own.extend_from_slice(&[0u8; 24]);
+    }
+    // C09 speaks of nodes whose members still fit a digest in one datagram: the node's own SYN is
+    // 4 header bytes, the digest, and the length-prefixed cluster id
+    let cluster_len = w.cfg.cluster_ids[w.cfg.cluster_of[to]].len();
+    let largest = codec::MAX_DATAGRAM - 4 - 2 - cluster_len;
+    let target = (*r.pick(&[65_403usize, 65_404, 65_405, 65_450, 65_480, 65_499, 65_501])).min(largest);
+    // an entry costs: 2 + id length, 8 generation, 7 IPv4 address, 24 for the three counters
+    let per_entry_fixed = 2 + 8 + 7 + 24;
+    let Some(extra) = target.checked_sub(own.len() + 2 * per_entry_fixed) else { return structured(r, w, to) };
+    if extra < 2 || extra / 2 > 60_000 {
+        return structured(r, w, to);
+    }
+    let (l1, l2) = (extra / 2, extra - extra / 2);
+    let mut b = Vec::new();
+    codec::put_u16(&mut b, codec::MAGIC);
+    b.push(0);
+    b.push(0); // SYN
+    codec::put_u16(&mut b, 2);
+    for (k, l) in [l1, l2].into_iter().enumerate() {
+        let id = Id { node_id: format!("{k}").repeat(l), generation: r.below(3), addr: format!("10.8.0.{}:7{:03}", k + 1, r.below(1000)).parse().unwrap() };
+        codec::put_id(&mut b, &id);
+        codec::put_u64(&mut b, 1 + r.below(5));
+        codec::put_u64(&mut b, 0);
+        codec::put_u64(&mut b, 0);
+    }
+    let cluster = w.cfg.cluster_ids[w.cfg.cluster_of[to]].clone();
+    codec::put_str(&mut b, &cluster);
+    b
+}
+
 pub fn craft(r: &mut Rng, w: &World, captured: &[Vec<u8>], to: usize) -> Vec<u8> {
+    if r.chance(0.06) {
+        return inflate(r, w, to);
+    }
     match r.below(3) {
         0 => structured(r, w, to),
         1 if !captured.is_empty() => {
